@@ -263,6 +263,33 @@ fn bsum(b: &[u8]) -> i64 {
 }
 
 /// Reading the payload the way the outcome asks for; returns (bytes read, error?)
+/// read mode "task": the payload is taken out of the message and read to its end by a task of its own, which
+/// outlives the handler (the handler returns at once): what that reader sees when the connection ends - an
+/// error, never a clean end - is observable
+fn spawn_reader(ctx: &Rc<Ctx>, h: i64, pl: ntex_mqtt::Payload) {
+    let c = ctx.clone();
+    c.emit(Ev::new("reader_start").s(h));
+    ntex_rt::spawn(async move {
+        let mut total = 0usize;
+        loop {
+            match pl.read().await {
+                Ok(Some(b)) => {
+                    total += b.len();
+                    c.emit(Ev::new("h_chunk").s(h).n(b.len() as i64).id(bsum(&b)));
+                }
+                Ok(None) => {
+                    c.emit(Ev::new("h_read").s(h).n(total as i64).r(0).k("task"));
+                    break;
+                }
+                Err(e) => {
+                    c.emit(Ev::new("h_read").s(h).n(total as i64).r(1).k("task").x(format!("{e:?}")));
+                    break;
+                }
+            }
+        }
+    });
+}
+
 macro_rules! read_payload {
     ($ctx:expr, $h:expr, $p:expr, $out:expr) => {{
         match $out.read.as_str() {
@@ -391,7 +418,7 @@ async fn pub5(ctx: Rc<Ctx>, p: v5::Publish) -> Result<v5::PublishAck, TestErr> {
 
 /// publish handler of connection `conn` (0 = the connection under observation) reached through
 /// router resource `res` (-1 = no router, 0 = default service, 1.. = resources)
-async fn pub5r(ctx: Rc<Ctx>, conn: i64, res: i64, p: v5::Publish) -> Result<v5::PublishAck, TestErr> {
+async fn pub5r(ctx: Rc<Ctx>, conn: i64, res: i64, mut p: v5::Publish) -> Result<v5::PublishAck, TestErr> {
     if conn != 0 {
         return Ok(p.ack());
     }
@@ -409,7 +436,11 @@ async fn pub5r(ctx: Rc<Ctx>, conn: i64, res: i64, p: v5::Publish) -> Result<v5::
     ctx.emit(props_ev(h, &p.packet().properties));
     let g = Guard { ctx: ctx.clone(), h, done: Cell::new(false) };
     let out = ctx.outcome(h, ctx.gate_pub.get(), false).await;
-    read_payload!(ctx, h, p, out);
+    if out.read == "task" || ctx.cfg_i("task_reader", 0) != 0 {
+        spawn_reader(&ctx, h, p.take_payload());
+    } else {
+        read_payload!(ctx, h, p, out);
+    }
     g.done.set(true);
     ctx.emit(Ev::new("h_end").s(h).k(out.res.clone()).r(out.code));
     match out.res.as_str() {
@@ -562,7 +593,7 @@ async fn hs3(ctx: Rc<Ctx>, h: v3::Handshake) -> Result<v3::HandshakeAck<()>, Tes
     }
 }
 
-async fn pub3(ctx: Rc<Ctx>, p: v3::Publish) -> Result<(), TestErr> {
+async fn pub3(ctx: Rc<Ctx>, mut p: v3::Publish) -> Result<(), TestErr> {
     let h = ctx.new_h();
     ctx.emit(
         Ev::new("h_start")
@@ -576,7 +607,11 @@ async fn pub3(ctx: Rc<Ctx>, p: v3::Publish) -> Result<(), TestErr> {
     );
     let g = Guard { ctx: ctx.clone(), h, done: Cell::new(false) };
     let out = ctx.outcome(h, ctx.gate_pub.get(), false).await;
-    read_payload!(ctx, h, p, out);
+    if out.read == "task" || ctx.cfg_i("task_reader", 0) != 0 {
+        spawn_reader(&ctx, h, p.take_payload());
+    } else {
+        read_payload!(ctx, h, p, out);
+    }
     g.done.set(true);
     ctx.emit(Ev::new("h_end").s(h).k(out.res.clone()).r(out.code));
     match out.res.as_str() {
@@ -1465,12 +1500,21 @@ pub async fn run_conn(ctx: Rc<Ctx>, cmds: Vec<Value>) {
                         *c.sink.borrow_mut() = SinkH::V3(client.sink());
                         c.emit(Ev::new("connected"));
                         let (c2, c3) = (c.clone(), c.clone());
-                        let r = client
-                            .start_with_control(
-                                fn_service(move |m: v3::client::ProtocolMessage| cproto3(c2.clone(), m)),
-                                fn_service(move |m: Control<TestErr>| ctl3(c3.clone(), m)),
-                            )
-                            .await;
+                        let r = if c.cfg_i("router", 0) != 0 {
+                            // publishes reach `v3::Publish` handlers through the client's topic router
+                            let r1 = c.clone();
+                            client
+                                .resource("t", fn_service(move |p: v3::Publish| pub3(r1.clone(), p)))
+                                .start(fn_service(move |m: v3::client::ProtocolMessage| cproto3(c2.clone(), m)))
+                                .await
+                        } else {
+                            client
+                                .start_with_control(
+                                    fn_service(move |m: v3::client::ProtocolMessage| cproto3(c2.clone(), m)),
+                                    fn_service(move |m: Control<TestErr>| ctl3(c3.clone(), m)),
+                                )
+                                .await
+                        };
                         c.conn_done.set(true);
                         c.emit(Ev::new("conn_done").k(match &r {
                             Ok(()) => "ok".to_string(),
